@@ -107,7 +107,7 @@ Fixpoint cond_plain (c : cond query) : bool :=
   | Cond _ _ ms => forallb (fun m => match m with MCond c' => cond_plain c' | MExpr e => eplain e end) ms
   end.
 Definition holder_plain (h : holder query) : bool :=
-  match h with HEmpty => true | HChain _ => false | HCond c => cond_plain c end.
+  match h with HEmpty => true | HChain ms => forallb (fun m => eplain (snd m)) ms | HCond c => cond_plain c end.
 
 Lemma fold_binop_plain op first rest : (match op with BCustom s => tok_lexes ftext b inl (WCust s) | _ => true end) = true ->
   eplain first = true -> Forall (fun e => eplain e = true) rest -> eplain (fold_binop op first rest) = true.
@@ -140,10 +140,39 @@ Proof.
   destruct n; [cbn [expr_plain]|]; exact He.
 Qed.
 
+(* the Chain form (and_or_where): members between " AND " / " OR ", each possibly between parentheses *)
+Lemma first_char_rchain len i m r : (0 < i)%nat ->
+  first_char (rchain is_alpha b T rq len i (m :: r)) = Some 32.
+Proof.
+  intros Hi. destruct i as [|i]; [lia|]. destruct m as [[|] e]; reflexivity.
+Qed.
+
+Lemma G_rchain_member len i m : eplain (snd m) = true -> G (rchain_member is_alpha b T rq len i m).
+Proof.
+  destruct m as [o e]. cbn [snd]. intros He. unfold rchain_member.
+  pose proof (EH ExprSafeProofs.G_wrap) as GW.
+  destruct (Nat.ltb 0 i).
+  - unfold ws at 1. cbn [app]. apply G_pre; [apply GW, G_rex, He| |]; destruct o; kc.
+  - cbn [app]. apply GW, G_rex, He.
+Qed.
+
+Lemma G_rchain len ms : forall i, forallb (fun m => eplain (snd m)) ms = true ->
+  G (rchain is_alpha b T rq len i ms).
+Proof.
+  induction ms as [|m r IH]; intros i Hp; cbn [rchain]; [apply G_nil|].
+  cbn [forallb] in Hp. apply andb_prop in Hp as [Hm Hr].
+  destruct r as [|m2 r2].
+  - cbn [rchain]. rewrite app_nil_r. now apply G_rchain_member.
+  - eapply G_app_safe; [now apply G_rchain_member|apply IH; exact Hr|apply first_char_rchain; lia|reflexivity].
+Qed.
+
 Lemma Cl_rholder kw h : (kw = "WHERE" \/ kw = "HAVING" \/ kw = "ON")%string -> holder_plain h = true ->
   Cl (rholder is_alpha b T rq kw h).
 Proof.
-  intros Hk Hp. destruct h as [|ms|c]; [apply Cl_nil|discriminate Hp|]. cbn [rholder holder_plain] in *.
+  intros Hk Hp. destruct h as [|ms|c]; [apply Cl_nil| |].
+  { cbn [rholder holder_plain] in *. split; [|right; reflexivity]. cbn [app].
+    apply G_pre; [apply G_rchain, Hp| |]; destruct Hk as [->|[->| ->]]; kc. }
+  cbn [rholder holder_plain] in *.
   split; [|right; reflexivity]. cbn [app].
   apply G_pre; [apply G_rex, to_simple_expr_plain, Hp| |];
     destruct Hk as [->|[->| ->]]; kc.
